@@ -35,12 +35,33 @@ static void strip_newline_from(char *name) {
         name[strlen(name)-1] = '\0';
 }
 
-static void add_all_tests_from(FILE *nm_output_pipe, CgreenVector *tests, bool verbose) {
-    char line[1000];
-    int length = read_line(nm_output_pipe, line, sizeof(line)-1);
-    while (length > -1) {       /* TODO: >0 ? */
-        if (!complete_line_read(line))
+/* Reads one complete line of any length into *line, growing it as needed.
+   Returns the length read or EOF as read_line() does. */
+static int read_complete_line(FILE *file, char **line, size_t *size) {
+    int length = read_line(file, *line, (int)*size-1);
+    int total = length;
+    while (length > 0 && !complete_line_read(*line)) {
+        char *longer = (char *)realloc(*line, *size*2);
+        if (longer == NULL) {
             PANIC("Too long line in nm output");
+            break;
+        }
+        *line = longer;
+        *size *= 2;
+        length = read_line(file, &(*line)[total], (int)(*size-total)-1);
+        if (length > 0)
+            total += length;
+    }
+    return total;
+}
+
+static void add_all_tests_from(FILE *nm_output_pipe, CgreenVector *tests, bool verbose) {
+    size_t size = 1000;
+    char *line = (char *)malloc(size);
+    if (line == NULL)
+        return;
+    int length = read_complete_line(nm_output_pipe, &line, &size);
+    while (length > -1) {       /* TODO: >0 ? */
         if (contains_cgreen_spec(line) && is_definition(line)) {
             strip_newline_from(line);
             TestItem *test_item = create_test_item_from(cgreen_spec_start_of(line));
@@ -49,8 +70,9 @@ static void add_all_tests_from(FILE *nm_output_pipe, CgreenVector *tests, bool v
                        test_item->specification_name);
             cgreen_vector_add(tests, test_item);
         }
-        length = read_line(nm_output_pipe, line, sizeof(line)-1);
+        length = read_complete_line(nm_output_pipe, &line, &size);
     }
+    free(line);
 }
 
 CgreenVector *discover_tests_in(const char *filename, bool verbose) {
